@@ -124,8 +124,13 @@ func (f *FaultPoints) Arm(on bool) {
 	f.mu.Unlock()
 }
 
+// CancelKey is the context key under which a workload passes the cancel function of the
+// context it hands to the node (see KVCtxCancel).
+type CancelKey struct{}
+
 // Fault kinds of the KV seam.
 const (
+	KVCtxCancel = "ctx.cancel-in-write-tx" // the caller's context is cancelled inside a write transaction (before commit)
 	KVOpErr             = "kv.op-error"           // a Put/Delete inside a write transaction fails
 	KVCommitFail        = "kv.commit-fail"        // the commit fails, nothing is stored, OnRollback runs
 	KVCrashBeforeCommit = "crash.before-commit"   // process stops after the callback, before commit
@@ -286,6 +291,10 @@ func (k *KV) write(ctx context.Context, op string, fn func(*wtx) error, opts []s
 		}
 		if k.F.Hit(KVCommitFail, k.site(op)) {
 			return errCommitInjected
+		}
+		// the caller's context ends (client went away, deadline) while the transaction is open: the store refuses to commit
+		if cancel, ok := ctx.Value(CancelKey{}).(context.CancelFunc); ok && k.F.Hit(KVCtxCancel, k.site(op)) {
+			cancel()
 		}
 		return nil
 	}, rest...)
